@@ -68,6 +68,8 @@ public class Str {
         Num.Q r = sc >= 0 ? new Num.Q(un, BigInteger.TEN.pow(sc)) : new Num.Q(un.multiply(BigInteger.TEN.pow(-sc)), BigInteger.ONE);
         return r.val();
     }
+    /** every occurrence of a replaced by b */
+    public static Value StrReplace(Value x, Value a, Value b) { return new StringValue(s(x).replace(s(a), s(b))); }
     public static Value StrFromInt(Value i) { return new StringValue(Integer.toString(((IntValue) i).val)); }
     /** number of digits after the decimal point of a plain decimal text (0 if there is no point) */
     public static Value StrDecimals(Value a) {
